@@ -186,7 +186,9 @@ public:
             return r;
         }
         Handle subscribe_lk(Handle h, const subscriber<T> *sub) {
-            auto r = subscribe_lk(sub, _regs[h]._pos);
+            //a parked subscriber already points to the value it is waiting for
+            const subreg_t &o = _regs[h];
+            auto r = subscribe_lk(sub, o._awt?o._pos-1:o._pos);
             return r;
         }
 
